@@ -10,7 +10,11 @@
 //!             configuration incl. serialize/restore).
 //! * `Coord` — the same with the coordinator-level operations.
 //! * `Graph` — sequential wait-for graphs on <= 8 transactions through
-//!             `add_wait`/`remove_wait`/`remove_transaction`.
+//!             `add_wait`/`remove_wait`/`remove_transaction`/`cleanup_stale_edges`.
+//!
+//! The wait-for graph of `Lm` and `Graph` is the one owned by a
+//! `DeadlockDetector` whose whole `DeadlockDetectorConfig` is part of the case
+//! (`Case::policy`, `Case::cap`, `Case::det`), small values included.
 //!
 //! Oracle: a reference model key -> (owner, handle, acquired_at) plus the
 //! simulated clock. Every lock-manager call is recorded with an invoke and a
@@ -71,6 +75,32 @@ pub enum Op {
     RemoveWait { w: u8, h: u8 },
     RemoveTx { t: u8 },
     Check,
+    /// `cleanup_stale_edges(config.edge_ttl_ms)`
+    CleanStale,
+}
+
+/// The fields of `DeadlockDetectorConfig` that `Case::policy` / `Case::cap` do
+/// not carry. `Default` = the detector's own defaults (old replay files).
+#[derive(Serialize, Deserialize, Clone, Debug, Default, PartialEq)]
+pub struct DetCase {
+    /// max_cycle_length; 0 = the default (100)
+    #[serde(default)]
+    pub max_cycle_len: u8,
+    /// victim_cascade_depth; None = the default (3)
+    #[serde(default)]
+    pub cascade_depth: Option<u8>,
+    /// enabled = !disabled
+    #[serde(default)]
+    pub disabled: bool,
+    /// auto_abort_victim = !no_auto_abort
+    #[serde(default)]
+    pub no_auto_abort: bool,
+    /// detection_interval_ms; 0 = the default (100)
+    #[serde(default)]
+    pub interval_ms: u32,
+    /// edge_ttl_ms; 0 = the default (30 000)
+    #[serde(default)]
+    pub edge_ttl_ms: u32,
 }
 
 #[derive(Serialize, Deserialize, Clone, Debug)]
@@ -84,10 +114,13 @@ pub struct Case {
     pub threads: Vec<Vec<Op>>,
     pub schedule: Vec<u8>,
     pub tail: Vec<Op>,
-    /// Graph: victim policy 0..3, per-tx edge cap (0 = default 50), lock counts for MostLocks
+    /// Lm, Graph: victim policy 0..3, per-tx edge cap (0 = default 50), lock counts for MostLocks
     pub policy: u8,
     pub cap: u8,
     pub lock_counts: Vec<u8>,
+    /// Lm, Graph: the rest of the detector's configuration
+    #[serde(default)]
+    pub det: DetCase,
 }
 
 pub struct C12;
@@ -412,7 +445,9 @@ struct World {
     ctx: Arc<RunCtx>,
     mode: Mode,
     lm_own: Mutex<Arc<LockManager>>,
-    graph_own: Arc<WaitForGraph>,
+    /// Lm: the detector (configured from the case) whose graph the lock manager records into
+    det: DeadlockDetector,
+    detp: DetParams,
     coord: Option<DistributedTxCoordinator>,
     /// Coord: index -> generated transaction id
     txids: Vec<u64>,
@@ -444,7 +479,7 @@ impl World {
     fn graph(&self) -> &WaitForGraph {
         match &self.coord {
             Some(c) => c.wait_graph(),
-            None => &self.graph_own,
+            None => self.det.graph(),
         }
     }
     fn tick(&self) -> usize {
@@ -618,6 +653,9 @@ impl World {
                 // critical sections; the property speaks of the recorded relations)
                 let c = self.graph().detect_cycles();
                 let _ = self.graph().would_create_cycle(1, 2);
+                if lm_mode {
+                    let _ = self.det.detect();
+                }
                 self.ctx.event(&format!("t{th} detect_cycles -> {} cycles", c.len()));
             },
             Op::SaveRestore if lm_mode && seq => {
@@ -817,6 +855,170 @@ fn call_kind(c: &Call, r: &Res) -> &'static str {
     }
 }
 
+// ------------------------------------------------------------------------
+// the detector under the configuration of the case
+// ------------------------------------------------------------------------
+
+struct DetParams {
+    policy: VictimSelectionPolicy,
+    policy_probe: &'static str,
+    cap: usize,
+    enabled: bool,
+    limit: usize,
+    cascade: u32,
+    ttl_ms: u64,
+    with_fn: bool,
+}
+
+/// Every field of `DeadlockDetectorConfig` comes from the case.
+fn build_detector(case: &Case) -> (DeadlockDetector, DetParams) {
+    let d = DeadlockDetectorConfig::default();
+    let (policy, policy_probe) = policy_of(case.policy);
+    let cap = if case.cap == 0 { d.max_edges_per_tx } else { case.cap as usize };
+    let limit = if case.det.max_cycle_len == 0 { d.max_cycle_length } else { case.det.max_cycle_len as usize };
+    let cascade = case.det.cascade_depth.map_or(d.victim_cascade_depth, u32::from);
+    let ttl_ms = if case.det.edge_ttl_ms == 0 { d.edge_ttl_ms } else { u64::from(case.det.edge_ttl_ms) };
+    let interval = if case.det.interval_ms == 0 { d.detection_interval_ms } else { u64::from(case.det.interval_ms) };
+    let mut cfg = if case.det.disabled { DeadlockDetectorConfig::disabled() } else { DeadlockDetectorConfig::default() };
+    cfg = cfg
+        .with_policy(policy)
+        .with_max_edges_per_tx(cap)
+        .with_max_cycle_length(limit)
+        .with_victim_cascade_depth(cascade)
+        .with_edge_ttl_ms(ttl_ms)
+        .with_interval(interval);
+    if case.det.no_auto_abort {
+        cfg = cfg.without_auto_abort();
+    }
+    let mut det = DeadlockDetector::new(cfg);
+    let with_fn = policy == VictimSelectionPolicy::MostLocks && case.lock_counts.len() >= 8;
+    if with_fn {
+        let counts = case.lock_counts.clone();
+        det.set_lock_count_fn(move |tx| counts[(tx as usize).wrapping_sub(1) % counts.len()] as usize);
+    }
+    (det, DetParams { policy, policy_probe, cap, enabled: !case.det.disabled, limit, cascade, ttl_ms, with_fn })
+}
+
+/// Independent of the code under test: every simple cycle of the relation
+/// (each found once, from its smallest member). <= 8 transactions everywhere.
+fn simple_cycles(edges: &BTreeSet<(u64, u64)>) -> Vec<Vec<u64>> {
+    fn go(s: u64, edges: &BTreeSet<(u64, u64)>, path: &mut Vec<u64>, out: &mut Vec<Vec<u64>>) {
+        let cur = *path.last().unwrap();
+        for (_, b) in edges.range((cur, 0)..=(cur, u64::MAX)) {
+            if *b == s {
+                out.push(path.clone());
+            } else if *b > s && !path.contains(b) {
+                path.push(*b);
+                go(s, edges, path, out);
+                path.pop();
+            }
+        }
+    }
+    let starts: BTreeSet<u64> = edges.iter().map(|e| e.0).collect();
+    let mut out = Vec::new();
+    for s in starts {
+        let mut path = vec![s];
+        go(s, edges, &mut path, &mut out);
+    }
+    out
+}
+
+/// `DeadlockDetector::detect` against a set of recorded relations.
+///
+/// "The deadlock detector reports a cycle exactly when the recorded wait-for
+/// relations contain one, and the victim it names belongs to that cycle."
+/// `max_cycle_length` is documented as "Maximum cycle length to detect" (module
+/// doc: it "prevents DoS via artificially long cycles"): a recorded cycle LONGER
+/// than the limit may go unreported; a recorded cycle within the limit must be
+/// reported whatever else the graph contains. A disabled detector (documented:
+/// "Detection can be disabled") is not expected to report.
+fn judge_detect(
+    ctx: &RunCtx,
+    edges: &BTreeSet<(u64, u64)>,
+    infos: &[(Vec<u64>, u64)],
+    p: &DetParams,
+    subject: &str,
+    show: &dyn Fn(&BTreeSet<(u64, u64)>) -> String,
+) -> Option<Violation> {
+    let cycles = simple_cycles(edges);
+    let any = !cycles.is_empty();
+    let within = cycles.iter().any(|c| c.len() <= p.limit);
+    let beyond = cycles.iter().any(|c| c.len() > p.limit);
+    // exactly when: nothing is reported when the relations contain no cycle
+    if !any && !infos.is_empty() {
+        return Some(Violation {
+            class: format!("detector-disagrees-with-{subject}:phantom"),
+            detail: format!("edges {}: no cycle, detect -> {} deadlocks {:?}", show(edges), infos.len(), infos.iter().map(|i| i.0.len()).collect::<Vec<_>>()),
+        });
+    }
+    for (c, victim) in infos {
+        if !is_real_cycle(c, edges) {
+            return Some(Violation { class: format!("reported-cycle-not-in-{subject}"), detail: format!("detect reported a cycle of {} transactions that is not a cycle of {}", c.len(), show(edges)) });
+        }
+        // "the victim it names belongs to that cycle"
+        ctx.probe(p.policy_probe);
+        if p.with_fn {
+            ctx.probe("victim_most_locks_with_count_fn");
+        }
+        if !c.contains(victim) {
+            return Some(Violation { class: format!("victim-outside-cycle:{:?}", p.policy), detail: format!("detect: victim is none of the {} transactions of the reported cycle; edges {}", c.len(), show(edges)) });
+        }
+        if c.len() >= 3 {
+            ctx.probe("cycle_len_ge3_detected");
+        }
+    }
+    if !p.enabled {
+        ctx.probe("detector_disabled");
+        return None;
+    }
+    // shape of the graph around the cycles: waiters queued behind a cycle
+    let on_cycle: BTreeSet<u64> = cycles.iter().flatten().copied().collect();
+    let queued_behind = edges.iter().any(|(a, b)| !on_cycle.contains(a) && on_cycle.contains(b));
+    let small = p.limit < 8;
+    if small {
+        ctx.probe("small_cycle_limit");
+    }
+    if any && !within {
+        ctx.probe("only_cycles_beyond_limit");
+        if infos.is_empty() {
+            ctx.probe("cycles_beyond_limit_unreported");
+        }
+    }
+    if within && small {
+        ctx.probe("cycle_within_small_limit");
+        if queued_behind {
+            ctx.probe("waiters_queued_behind_cycle_within_small_limit");
+        }
+        if beyond {
+            ctx.probe("cycle_within_small_limit_beside_longer_cycle");
+        }
+    }
+    if within && queued_behind {
+        ctx.probe("waiters_queued_behind_cycle");
+    }
+    if infos.len() >= 2 {
+        ctx.probe("several_deadlocks_reported");
+    }
+    if p.cascade != 3 && cycles.len() >= 2 {
+        ctx.probe("cascade_depth_non_default_with_several_cycles");
+    }
+    // exactly when: a recorded cycle (within the limit) is reported
+    if within && infos.is_empty() {
+        let shortest = cycles.iter().map(Vec::len).min().unwrap_or(0);
+        let kind = if beyond { "missed-within-limit-beside-longer-cycle" } else { "missed" };
+        return Some(Violation {
+            class: format!("detector-disagrees-with-{subject}:{kind}"),
+            detail: format!(
+                "edges {}: contain a cycle of {shortest} transactions, max_cycle_length = {}{}, detect -> no deadlock",
+                show(edges),
+                p.limit,
+                if beyond { " (the relations also contain a cycle longer than the limit)" } else { "" }
+            ),
+        });
+    }
+    None
+}
+
 /// detect_cycles / would_create_cycle against the relations recorded in the
 /// graph itself (read through waiting_for), on a quiescent system.
 fn check_detect_quiescent(w: &World) -> Option<Violation> {
@@ -844,6 +1046,14 @@ fn check_detect_quiescent(w: &World) -> Option<Violation> {
     for c in &cyc {
         if !is_real_cycle(c, &edges) {
             return Some(Violation { class: "reported-cycle-not-in-recorded-edges".into(), detail: format!("cycle {:?} edges {:?}", c.iter().map(|x| w.tname(*x)).collect::<Vec<_>>(), name_edges(w, &edges)) });
+        }
+    }
+    // the detector proper (lock-manager configuration: the graph is the detector's own)
+    if w.coord.is_none() {
+        let infos: Vec<(Vec<u64>, u64)> = w.det.detect().into_iter().map(|i| (i.cycle, i.victim_tx_id)).collect();
+        w.ctx.event(&format!("detect (max_cycle_length={} cascade={} enabled={}) -> {} deadlocks", w.detp.limit, w.detp.cascade, w.detp.enabled, infos.len()));
+        if let Some(v) = judge_detect(&w.ctx, &edges, &infos, &w.detp, "recorded-edges", &|e| format!("{:?}", name_edges(w, e))) {
+            return Some(v);
         }
     }
     for a in &uni {
@@ -940,7 +1150,8 @@ fn run_lm_or_coord(case: &Case, ctx: &Arc<RunCtx>) -> RunOut {
         ctx: ctx.clone(),
         mode: case.mode.clone(),
         lm_own: Mutex::new(Arc::new(LockManager::with_default_timeout(Duration::from_millis(case.timeout_ms)))),
-        graph_own: Arc::new(WaitForGraph::new()),
+        det: build_detector(case).0,
+        detp: build_detector(case).1,
         coord,
         txids,
         timeout_ms: case.timeout_ms,
@@ -1298,6 +1509,7 @@ fn op_name(op: &Op) -> &'static str {
         Op::RemoveWait { .. } => "remove_wait",
         Op::RemoveTx { .. } => "remove_transaction",
         Op::Check => "check",
+        Op::CleanStale => "cleanup_stale_edges",
     }
 }
 
@@ -1340,16 +1552,9 @@ fn find_model_cycle(edges: &BTreeSet<(u64, u64)>) -> Option<Vec<u64>> {
 fn run_graph(case: &Case, ctx: &Arc<RunCtx>) -> RunOut {
     let mut out = RunOut::default();
     let n = u64::from(case.ntx.clamp(2, 8));
-    let (policy, policy_probe) = policy_of(case.policy);
-    let cap = if case.cap == 0 { 50usize } else { case.cap as usize };
-    let cfg = DeadlockDetectorConfig::default().with_policy(policy).with_max_edges_per_tx(cap);
-    let mut det = DeadlockDetector::new(cfg);
-    let with_fn = policy == VictimSelectionPolicy::MostLocks && case.lock_counts.len() >= 8;
-    if with_fn {
-        let counts = case.lock_counts.clone();
-        det.set_lock_count_fn(move |tx| counts[(tx as usize).wrapping_sub(1) % counts.len()] as usize);
-    }
-    ctx.fp(&format!("graph:{}", case.policy % 4));
+    let (det, dp) = build_detector(case);
+    let (policy, policy_probe, cap, with_fn) = (dp.policy, dp.policy_probe, dp.cap, dp.with_fn);
+    ctx.fp(&format!("graph:{}:{}:{}:{}", case.policy % 4, dp.limit.min(9), dp.cascade.min(9), dp.enabled));
     let mut edges: BTreeSet<(u64, u64)> = BTreeSet::new();
     let tx = |t: u8| u64::from(t) % n + 1;
     let mut cycles_checked = 0u64;
@@ -1404,6 +1609,32 @@ fn run_graph(case: &Case, ctx: &Arc<RunCtx>) -> RunOut {
                 }
             },
             Op::Advance { ms } => ctx.advance_ms(u64::from(*ms)),
+            Op::CleanStale => {
+                // "Remove transactions whose wait-start time is older than ttl_ms":
+                // the waits that timed out are those whose recorded start (public
+                // observer) is more than the configured TTL ago; each such
+                // transaction "no longer appears as waiter or holder", every other
+                // recorded relation stays (checked by the read-back below)
+                let now = wall_ms(ctx);
+                let age: Vec<(u64, u64)> = (1..=n).filter_map(|t| g.get_wait_start(t).map(|s| (t, now.saturating_sub(s)))).collect();
+                // the call reads the clock after this read: a wait exactly at the
+                // boundary could fall on either side -> the step is a no-op
+                if age.iter().any(|(_, a)| *a == dp.ttl_ms) {
+                    ctx.event("cleanup_stale_edges skipped (a wait exactly at the TTL boundary)");
+                    continue;
+                }
+                let stale: BTreeSet<u64> = age.iter().filter(|(_, a)| *a > dp.ttl_ms).map(|(t, _)| *t).collect();
+                let k = g.cleanup_stale_edges(dp.ttl_ms);
+                let before = edges.len();
+                edges.retain(|e| !stale.contains(&e.0) && !stale.contains(&e.1));
+                if !stale.is_empty() {
+                    ctx.probe("stale_waits_cleaned");
+                    if edges.len() < before && !edges.is_empty() {
+                        ctx.probe("stale_waits_cleaned_some_edges_stay");
+                    }
+                }
+                ctx.event(&format!("cleanup_stale_edges({}) -> {k}, {} transactions were stale", dp.ttl_ms, stale.len()));
+            },
             Op::Check => {},
             _ => continue,
         }
@@ -1430,21 +1661,20 @@ fn run_graph(case: &Case, ctx: &Arc<RunCtx>) -> RunOut {
         // wait-for relations contain one"
         let cyclic = has_cycle(&edges);
         let cyc = g.detect_cycles();
-        let infos = det.detect();
-        ctx.event(&format!("check: {} edges cyclic={cyclic} detect_cycles={} detect={}", edges.len(), cyc.len(), infos.len()));
-        if cyclic == cyc.is_empty() || cyclic == infos.is_empty() {
+        let infos: Vec<(Vec<u64>, u64)> = det.detect().into_iter().map(|i| (i.cycle, i.victim_tx_id)).collect();
+        ctx.event(&format!("check: {} edges cyclic={cyclic} detect_cycles={} detect(max_cycle_length={} cascade={} enabled={})={}", edges.len(), cyc.len(), dp.limit, dp.cascade, dp.enabled, infos.len()));
+        // the graph's own (unbounded) search
+        if cyclic == cyc.is_empty() {
             out.violation = Some(Violation {
-                class: format!("detector-disagrees-with-model:{}", if cyclic { "missed" } else { "phantom" }),
-                detail: format!("edges {edges:?}: model cyclic={cyclic}, detect_cycles -> {cyc:?}, detect -> {} deadlocks", infos.len()),
+                class: format!("detect-cycles-disagrees-with-model:{}", if cyclic { "missed" } else { "phantom" }),
+                detail: format!("edges {edges:?}: model cyclic={cyclic}, detect_cycles -> {} cycles", cyc.len()),
             });
             out.nontrivial = true;
             return out;
         }
-        let mut all: Vec<(Vec<u64>, Option<u64>)> = cyc.iter().map(|c| (c.clone(), None)).collect();
-        all.extend(infos.iter().map(|i| (i.cycle.clone(), Some(i.victim_tx_id))));
-        for (c, victim) in &all {
+        for c in &cyc {
             if !is_real_cycle(c, &edges) {
-                out.violation = Some(Violation { class: "reported-cycle-not-in-model".into(), detail: format!("reported cycle {c:?} is not a cycle of {edges:?}") });
+                out.violation = Some(Violation { class: "reported-cycle-not-in-model".into(), detail: format!("detect_cycles reported {c:?}, which is not a cycle of {edges:?}") });
                 out.nontrivial = true;
                 return out;
             }
@@ -1453,7 +1683,7 @@ fn run_graph(case: &Case, ctx: &Arc<RunCtx>) -> RunOut {
                 ctx.probe("cycle_len_ge3_detected");
             }
             // "the victim it names belongs to that cycle"
-            let v = victim.unwrap_or_else(|| det.select_victim(c));
+            let v = det.select_victim(c);
             ctx.probe(policy_probe);
             if with_fn {
                 ctx.probe("victim_most_locks_with_count_fn");
@@ -1464,6 +1694,13 @@ fn run_graph(case: &Case, ctx: &Arc<RunCtx>) -> RunOut {
                 return out;
             }
         }
+        // the detector under the configuration of the case
+        if let Some(v) = judge_detect(ctx, &edges, &infos, &dp, "model", &|e| format!("{e:?}")) {
+            out.violation = Some(v);
+            out.nontrivial = true;
+            return out;
+        }
+        cycles_checked += infos.len() as u64;
         if let Some(mc) = find_model_cycle(&edges) {
             let v = det.select_victim(&mc);
             if !mc.contains(&v) {
@@ -1552,6 +1789,30 @@ fn gen_tail(rng: &mut Rng, ntx: u8, nkeys: u8, timeout: u64, len: usize, coord: 
     t
 }
 
+/// Every field of the detector's configuration, small values included.
+fn gen_det(rng: &mut Rng) -> DetCase {
+    DetCase {
+        max_cycle_len: match rng.below(10) {
+            0..=3 => 0,
+            4..=8 => rng.range(2, 5) as u8,
+            _ => *rng.pick(&[1u8, 6, 7, 8, 50]),
+        },
+        cascade_depth: if rng.chance(1, 2) { None } else { Some(rng.below(5) as u8) },
+        disabled: rng.chance(1, 30),
+        no_auto_abort: rng.chance(1, 4),
+        interval_ms: if rng.chance(1, 2) { 0 } else { *rng.pick(&[1u32, 10, 1000]) },
+        edge_ttl_ms: if rng.chance(1, 3) { 0 } else { *rng.pick(&[20u32, 100, 500, 5000]) },
+    }
+}
+
+fn gen_lock_counts(rng: &mut Rng) -> Vec<u8> {
+    if rng.chance(2, 3) {
+        (0..8).map(|_| rng.below(5) as u8).collect()
+    } else {
+        vec![]
+    }
+}
+
 fn gen_coord_op(rng: &mut Rng, home: u8, ntx: u8, nkeys: u8) -> Op {
     let tx = if rng.chance(3, 4) { home } else { rng.below(u64::from(ntx)) as u8 };
     match rng.below(100) {
@@ -1608,9 +1869,10 @@ impl Scenario for C12 {
                     threads,
                     schedule: sched::gen_schedule(rng, slen, sticky),
                     tail: gen_tail(rng, ntx, nkeys, timeout, tl, false),
-                    policy: 0,
-                    cap: 0,
-                    lock_counts: vec![],
+                    policy: rng.below(4) as u8,
+                    cap: if rng.chance(1, 8) { rng.range(1, 3) as u8 } else { 0 },
+                    lock_counts: gen_lock_counts(rng),
+                    det: gen_det(rng),
                 }
             },
             // (b) sequential programs incl. serialize/restore
@@ -1618,7 +1880,19 @@ impl Scenario for C12 {
                 let ntx = rng.range(2, 6) as u8;
                 let timeout = *rng.pick(&[250u64, 950, 2950]);
                 let tl = rng.range(6, 24) as usize;
-                Case { mode: Mode::Lm, timeout_ms: timeout, ntx, nshards: 1, threads: vec![], schedule: vec![], tail: gen_tail(rng, ntx, nkeys, timeout, tl, false), policy: 0, cap: 0, lock_counts: vec![] }
+                Case {
+                    mode: Mode::Lm,
+                    timeout_ms: timeout,
+                    ntx,
+                    nshards: 1,
+                    threads: vec![],
+                    schedule: vec![],
+                    tail: gen_tail(rng, ntx, nkeys, timeout, tl, false),
+                    policy: rng.below(4) as u8,
+                    cap: if rng.chance(1, 8) { rng.range(1, 3) as u8 } else { 0 },
+                    lock_counts: gen_lock_counts(rng),
+                    det: gen_det(rng),
+                }
             },
             // coordinator paths
             60..=79 => {
@@ -1659,6 +1933,7 @@ impl Scenario for C12 {
                     policy: 0,
                     cap: 0,
                     lock_counts: vec![],
+                    det: DetCase::default(),
                 }
             },
             // (c) wait-for graphs
@@ -1669,8 +1944,35 @@ impl Scenario for C12 {
                 while ops.len() < n {
                     let prio = if rng.chance(1, 2) { Some(rng.below(6) as u8) } else { None };
                     match rng.below(100) {
-                        0..=44 => ops.push(Op::AddWait { w: rng.below(u64::from(ntx)) as u8, h: rng.below(u64::from(ntx)) as u8, prio }),
-                        45..=54 => {
+                        0..=39 => ops.push(Op::AddWait { w: rng.below(u64::from(ntx)) as u8, h: rng.below(u64::from(ntx)) as u8, prio }),
+                        40..=47 => {
+                            // a queue of waiters leading into a ring: q0 -> q1 -> .. -> r0 -> r1 -> .. -> r0,
+                            // edges added in any order
+                            let ring = rng.range(2, u64::from(ntx.min(5))) as u8;
+                            let queue = rng.range(0, u64::from(ntx - ring)) as u8;
+                            let s = rng.below(u64::from(ntx)) as u8;
+                            let node = |i: u8| (s + i) % ntx;
+                            let mut es: Vec<(u8, u8)> = (0..queue).map(|i| (node(i), node(i + 1))).collect();
+                            for i in 0..ring {
+                                es.push((node(queue + i), node(queue + (i + 1) % ring)));
+                            }
+                            if rng.chance(1, 2) {
+                                for i in (1..es.len()).rev() {
+                                    let j = rng.usize_below(i + 1);
+                                    es.swap(i, j);
+                                }
+                            }
+                            for (a, b) in es {
+                                ops.push(Op::AddWait { w: a, h: b, prio });
+                                if rng.chance(1, 4) {
+                                    ops.push(Op::Advance { ms: rng.range(1, 50) as u32 });
+                                }
+                            }
+                            if rng.chance(1, 2) {
+                                ops.push(Op::Check);
+                            }
+                        },
+                        48..=54 => {
                             // a chain, possibly closed into a ring
                             let len = rng.range(2, u64::from(ntx)) as u8;
                             let s = rng.below(u64::from(ntx)) as u8;
@@ -1686,7 +1988,8 @@ impl Scenario for C12 {
                         },
                         55..=64 => ops.push(Op::RemoveWait { w: rng.below(u64::from(ntx)) as u8, h: rng.below(u64::from(ntx)) as u8 }),
                         65..=74 => ops.push(Op::RemoveTx { t: rng.below(u64::from(ntx)) as u8 }),
-                        75..=81 => ops.push(Op::Advance { ms: rng.range(1, 200) as u32 }),
+                        75..=80 => ops.push(Op::Advance { ms: rng.range(1, 200) as u32 }),
+                        81..=83 => ops.push(Op::CleanStale),
                         _ => ops.push(Op::Check),
                     }
                 }
@@ -1700,7 +2003,8 @@ impl Scenario for C12 {
                     tail: ops,
                     policy: rng.below(4) as u8,
                     cap: if rng.chance(1, 6) { rng.range(1, 3) as u8 } else { 0 },
-                    lock_counts: if rng.chance(2, 3) { (0..8).map(|_| rng.below(5) as u8).collect() } else { vec![] },
+                    lock_counts: gen_lock_counts(rng),
+                    det: gen_det(rng),
                 }
             },
         }
@@ -1787,6 +2091,39 @@ impl Scenario for C12 {
             c.cap = 0;
             v.push(c);
         }
+        // detector configuration: towards the defaults, field by field
+        if case.det != DetCase::default() {
+            let d = DetCase::default();
+            let mut c = case.clone();
+            c.det = DetCase { max_cycle_len: case.det.max_cycle_len, ..d.clone() };
+            if c.det != case.det {
+                v.push(c);
+            }
+            for f in 0..6 {
+                let mut c = case.clone();
+                match f {
+                    0 => c.det.max_cycle_len = 0,
+                    1 => c.det.cascade_depth = None,
+                    2 => c.det.disabled = false,
+                    3 => c.det.no_auto_abort = false,
+                    4 => c.det.interval_ms = 0,
+                    _ => c.det.edge_ttl_ms = 0,
+                }
+                if c.det != case.det {
+                    v.push(c);
+                }
+            }
+        }
+        if case.policy % 4 != 0 {
+            let mut c = case.clone();
+            c.policy = 0;
+            v.push(c);
+        }
+        if !case.lock_counts.is_empty() {
+            let mut c = case.clone();
+            c.lock_counts = vec![];
+            v.push(c);
+        }
         v
     }
 
@@ -1809,6 +2146,17 @@ impl Scenario for C12 {
             "victim_policy_oldest",
             "victim_policy_lowest_priority",
             "victim_policy_most_locks",
+            // detector configuration as part of the case
+            "small_cycle_limit",
+            "cycle_within_small_limit",
+            "waiters_queued_behind_cycle_within_small_limit",
+            "cycle_within_small_limit_beside_longer_cycle",
+            "only_cycles_beyond_limit",
+            "cascade_depth_non_default_with_several_cycles",
+            "several_deadlocks_reported",
+            "detector_disabled",
+            "lm_cycle_recorded",
+            "stale_waits_cleaned",
         ]
     }
 
@@ -1820,7 +2168,7 @@ impl Scenario for C12 {
     }
 
     fn rule(&self) -> String {
-        "A case is one of: (a) 2-6 baton-scheduled threads each running 2-6 lock-manager operations (try_lock, try_lock_with_wait_tracking, release, release_by_handle[_with_wait_cleanup], end-of-transaction, cleanup_expired[_with_wait_cleanup], clock advance, lock_holder, detect_cycles) over 2-4 keys and <=8 transactions under an explicit schedule, followed by a sequential tail; (b) a sequential program of 6-24 such operations incl. serialize/restore; (coord) 2-5 threads of handle_prepare+record_vote/commit/abort/cleanup_timeouts/clock advance on a DistributedTxCoordinator with 2-5 begun transactions; (c) a sequential program of 4-30 add_wait/remove_wait/remove_transaction/check operations on <=8 transactions with one of the four victim policies. Non-trivial: (a)/(coord) at least two lock-manager calls of different threads overlapped in time; (b) at least one grant and one refusal; (c) at least one reported cycle was checked. Distinct: hash of configuration and the sequence of call kinds/outcomes in linearization order.".into()
+        "A case is one of: (a) 2-6 baton-scheduled threads each running 2-6 lock-manager operations (try_lock, try_lock_with_wait_tracking, release, release_by_handle[_with_wait_cleanup], end-of-transaction, cleanup_expired[_with_wait_cleanup], clock advance, lock_holder, detect_cycles) over 2-4 keys and <=8 transactions under an explicit schedule, followed by a sequential tail; (b) a sequential program of 6-24 such operations incl. serialize/restore; (coord) 2-5 threads of handle_prepare+record_vote/commit/abort/cleanup_timeouts/clock advance on a DistributedTxCoordinator with 2-5 begun transactions; (c) a sequential program of 4-30 add_wait/remove_wait/remove_transaction/cleanup_stale_edges/check operations on <=8 transactions (single edges, chains, rings, queues of waiters leading into a ring). In (a), (b) and (c) the wait-for graph is the one of a DeadlockDetector whose whole configuration is drawn with the case: victim policy (4), max_edges_per_tx (default or 1-3), max_cycle_length (default or 1-8, 50), victim_cascade_depth (default or 0-4), enabled, auto_abort_victim, detection_interval_ms, edge_ttl_ms; detect() is judged at every check. Non-trivial: (a)/(coord) at least two lock-manager calls of different threads overlapped in time; (b) at least one grant and one refusal; (c) at least one reported cycle was checked. Distinct: hash of configuration and the sequence of call kinds/outcomes in linearization order.".into()
     }
 
     fn components(&self) -> Value {
@@ -1838,6 +2186,8 @@ impl Scenario for C12 {
             "a transaction has timed out when it lost a lock through expiry (swept or taken over) while it had issued no operation since before that lock expired, and an expiry sweep ran afterwards".into(),
             "under concurrency the wait-for graph is judged only at quiescence (its updates span several critical sections; the property speaks of the recorded relations)".into(),
             "which blocker a refusal names and which edges a refused request records are not judged beyond: the named blocker holds one of the requested keys".into(),
+            "max_cycle_length ('Maximum cycle length to detect') may suppress the report of cycles LONGER than it and nothing else: when the recorded relations contain a cycle of at most max_cycle_length transactions, detect() must report a deadlock; when every recorded cycle is longer, reporting nothing is accepted; a disabled detector is not expected to report; whatever is reported must be a cycle of the recorded relations with the victim on it".into(),
+            "a wait has timed out for cleanup_stale_edges(edge_ttl_ms) when its recorded start (get_wait_start) is more than edge_ttl_ms before the simulated clock; the step is skipped when a wait is exactly at the boundary".into(),
         ]
     }
 }
